@@ -9,11 +9,16 @@ import warnings
 from ..lib import core
 from ..lib.core import Failure, Disagreement
 from ..extract import setters as _ex
+from ..extract import timeshape as _ex_time
 
 PROP = "C19"
 LEAN_MODULE = "NixModel.Props.C19"
 THEOREMS = [
     "Nix.C19.C19_roundtrip",
+    "Nix.C19.C19_time_to_str_follows_source",
+    "Nix.C19.C19_epoch_is_source",
+    "Nix.C19.C19_str_to_time_follows_source",
+    "Nix.C19.C19_roundtrip_source_formats",
     "Nix.C19.C19_created_fixed",
     "Nix.C19.C19_monotone",
     "Nix.C19.C19_monotone_from_open",
@@ -53,7 +58,10 @@ THEOREMS = [
 ASSUMPTIONS = [
     "CPython's datetime (utcfromtimestamp, strftime with glibc's unpadded %Y, strptime, datetime subtraction) is "
     "replaced by the Lean stand-in Py.Civil / Pure.Time; strptime is modelled on the canonical 15-character shape only "
-    "(its one-digit-field leniency concerns strings nixio never writes for years >= 1000)",
+    "(its one-digit-field leniency concerns strings nixio never writes for years >= 1000); the format-driven "
+    "conversions of Pure.TimeFormat (what %Y %m %d %H %M %S and a literal mean: unpadded year when formatting, "
+    "fixed-width fields and case-insensitive literals when parsing) are proved equal to them for the format strings "
+    "and the epoch read from the source",
     "C19_roundtrip / C19_force_roundtrip / C19_monotone are stated for whole seconds 0 <= t < 4102444800 (1970..2100), "
     "the range the property names; outside it the model follows the code (unpadded years < 1000 do not round-trip)",
     "the clock is `nixio.util.now_int` (the name every nixio module calls), replaced by a controlled value during the "
@@ -89,7 +97,10 @@ TRUSTED_EXTRA = ["harness/extract/setters.py recognises the idiom `if self.file.
                  "verifies the shape of force_created_at / force_updated_at, renders the body shape of the created_at / "
                  "updated_at getters and Python's MRO; classifies every place of nixio/**/*.py that names the switch "
                  "(switchUses); renders the steps every create_new class method, every create_* factory and "
-                 "File.__init__ perform on the new entity's stamps (Generated/Creation.lean)"]
+                 "File.__init__ perform on the new entity's stamps (Generated/Creation.lean)",
+                 "harness/extract/timeshape.py recognises the bodies of util.time_to_str / str_to_time statement by "
+                 "statement and renders the strftime / strptime format strings as piece lists and the epoch date "
+                 "(Generated/TimeShape.lean)"]
 
 T2100 = 4102444800
 KINDS = ["file", "block", "group", "data_array", "data_frame", "tag", "multi_tag", "source", "section", "property",
@@ -104,7 +115,9 @@ LISTED = ["type", "definition", "label", "unit", "polynom_coefficients", "expans
 
 
 def extract(repo):
-    return _ex.extract(repo)
+    out = dict(_ex.extract(repo))
+    out.update(_ex_time.extract(repo))
+    return out
 
 
 def _nix():
@@ -2146,7 +2159,8 @@ def replay_failure(ctx, fj):
 
 
 LEANCHECK_MODULES = ["NixModel.Props.C19", "NixModel.Lemmas.C19Stamps", "NixModel.Lemmas.C19Time",
-                     "NixModel.Lemmas.C19Days", "NixModel.Pure.Stamps", "NixModel.Pure.StampsCreate",
+                     "NixModel.Lemmas.C19Days", "NixModel.Lemmas.C19TimeFormat", "NixModel.Pure.Stamps",
+                     "NixModel.Pure.StampsCreate", "NixModel.Pure.TimeFormat", "NixModel.Generated.TimeShape",
                      "NixModel.Pure.Time", "NixModel.Py.Civil", "NixModel.Generated.Setters",
                      "NixModel.Generated.Creation"]
 
@@ -2154,7 +2168,9 @@ READY = True
 MANIFEST = {
     "level_text": "Kernel-checked theorems over a Lean model of the time stamp machinery: str_to_time(time_to_str(t)) "
                   "= t for every whole second 1970..2100 (civil-date table over all 47 482 days by decide +kernel, "
-                  "lifted by t = 86400 d + s); over a state machine of entities with stored created_at / updated_at, "
+                  "lifted by t = 86400 d + s), the conversions being those of the format strings and the epoch the "
+                  "source hands to strftime / strptime (generated, interpreted in Lean, proved equal to the model for "
+                  "every argument); over a state machine of entities with stored created_at / updated_at, "
                   "for all histories: created_at only changes by force_created_at, updated_at is monotone under "
                   "non-force operations with a non-decreasing clock, nothing but force changes a stamp with the switch "
                   "off, with the switch on every listed attribute setter of every entity kind sets exactly that "
